@@ -91,9 +91,29 @@ def validate_closed_forms():
     return n
 
 
-def divform(e, var, K):
-    """recognise  s_out * DIV(s_in * a + c, |K| or K)  in a gated leaf; returns (s_out, s_in, c) normalised to division by |K|, or None"""
+def divform(e, var, K, region=None):
+    """recognise  s_out * DIV(s_in * a + c, |K| or K)  in a gated leaf; returns (s_out, s_in, c) normalised to division by |K|, or None.
+    Shifts by log2|K| are divisions when the sign of the numerator over `region` (lo,hi) makes them so."""
     k = abs(K)
+    if region is not None and k & (k - 1) == 0 and k > 1:
+        sh = k.bit_length() - 1
+        s0, e0 = 1, e
+        if e0[0] == "op" and e0[1] == "sub" and gate.is_c(e0[3]) and e0[3][2] == 0:
+            s0, e0 = -1, e0[4]
+        if e0[0] == "cast" and e0[1] in ("trunc", "sext", "zext"):
+            e0 = e0[4]
+        if e0[0] == "op" and e0[1] in ("lshr", "ashr") and gate.is_c(e0[4]) and e0[4][2] == sh:
+            bits = gate._bits(e0[2])
+            as_div = ("op", "sdiv", e0[2], e0[3], gate.C(bits, k))
+            inner = divform(as_div, var, K)
+            if inner is not None:
+                _, s_in, c = inner
+                ys = sorted((s_in * region[0] + c, s_in * region[1] + c))
+                if ys[0] >= 0:
+                    return (s0, s_in, c)                     # non-negative numerator: both shifts truncate
+                if ys[1] < 0 and e0[1] == "ashr":
+                    return (-s0, -s_in, -c + k - 1)          # floor(y/k) = -trunc((-y + k - 1)/k) for y < 0
+            return None
     s_out = 1
     bits = None
     # outer negation
